@@ -261,9 +261,10 @@ def cargo_build_d1(name, toolchain=None, release=False, target_dir=None, rustfla
     return rc, diags, err
 
 
-def diag_lines(msg):
+def diag_lines(msg, primary_only=False):
     """All (file, line_start, line_end, in_educe_expansion) spans of a rustc JSON diagnostic,
-    following macro expansions back to the user's source."""
+    following macro expansions back to the user's source.  `primary_only`: only the primary spans of the message
+    itself (notes such as "a function of the same name is available here" point at unrelated places)."""
     res = []
 
     def walk(sp, via_educe):
@@ -276,7 +277,11 @@ def diag_lines(msg):
             exp and "Educe" in (exp.get("macro_decl_name") or ""))))
 
     for sp in msg.get("spans", []):
+        if primary_only and not sp.get("is_primary"):
+            continue
         walk(sp, False)
+    if primary_only:
+        return res
     for ch in msg.get("children", []):
         for sp in ch.get("spans", []):
             walk(sp, False)
